@@ -80,28 +80,67 @@ def summary(a):
 
 
 reuse_rows = []
+
+
+def variants(cr):
+    """the crystal, a strained copy and a substituted copy -- all with the same number of atoms, so that ONE Atoms
+    object can be edited in place from one to the next"""
+    out = [("as given", cr)]
+    cell = np.array(cr["cell"], dtype=float)
+    st = dict(cr)
+    st["cell"] = (cell * np.array([[1.0], [1.0], [1.06]])).tolist()
+    out.append(("strained 6 % along c", st))
+    sub = dict(cr)
+    nums = list(cr["numbers"])
+    nums[0] = 83 if nums[0] != 83 else 82
+    sub["numbers"] = nums
+    out.append(("first atom substituted", sub))
+    return out
+
+
+def same_summary(s1, s2):
+    return (s1["number"] == s2["number"] and s1["material_id"] == s2["material_id"] and s1["conv_numbers"] == s2["conv_numbers"]
+            and s1["multiset"] == s2["multiset"] and np.allclose(s1["conv_cell"], s2["conv_cell"], atol=1e-8)
+            and np.allclose(np.array(s1["conv_scaled"]) % 1.0, np.array(s2["conv_scaled"]) % 1.0, atol=1e-8))
+
+
 if req.get("reuse"):
-    # one analyzer instance fed successive crystals through set_system: every answer must equal the
-    # answer of a freshly constructed analyzer
+    # one analyzer instance fed successive structures through set_system -- new Atoms objects and THE SAME Atoms
+    # object edited in place (strain, substitution) and handed in again: every answer must equal the answer of a
+    # freshly constructed analyzer on a copy of the structure as it is at that moment
     shared = None
+    buf = None
     for c in req["reuse"]:
-        cr = c["crystal"]
-        at = Atoms(numbers=cr["numbers"], cell=cr["cell"], scaled_positions=cr["scaled_positions"], pbc=True)
-        try:
-            with time_limit(120):
-                if shared is None:
-                    shared = SymmetryAnalyzer(at, symmetry_tol=c.get("tol", 1e-3))
-                else:
-                    shared.set_system(at)
-                s1 = summary(shared)
-                s2 = summary(SymmetryAnalyzer(at, symmetry_tol=c.get("tol", 1e-3)))
-                same = (s1["number"] == s2["number"] and s1["material_id"] == s2["material_id"] and s1["conv_numbers"] == s2["conv_numbers"]
-                        and s1["multiset"] == s2["multiset"] and np.allclose(s1["conv_cell"], s2["conv_cell"], atol=1e-8)
-                        and np.allclose(np.array(s1["conv_scaled"]) % 1.0, np.array(s2["conv_scaled"]) % 1.0, atol=1e-8))
-                reuse_rows.append({"id": c["id"], "same": bool(same), "reused": {k: s1[k] for k in ("number", "material_id", "multiset")},
-                                   "fresh": {k: s2[k] for k in ("number", "material_id", "multiset")}})
-        except Exception as e:
-            reuse_rows.append({"id": c["id"], "error": type(e).__name__ + ": " + str(e)[:200]})
+        for what, cr in variants(c["crystal"]):
+            try:
+                with time_limit(120):
+                    if buf is not None and len(buf) == len(cr["numbers"]):
+                        buf.set_cell(cr["cell"], scale_atoms=False)
+                        buf.set_atomic_numbers(cr["numbers"])
+                        buf.set_scaled_positions(cr["scaled_positions"])
+                        how = "same Atoms object edited in place"
+                    else:
+                        buf = Atoms(numbers=cr["numbers"], cell=cr["cell"], scaled_positions=cr["scaled_positions"], pbc=True)
+                        how = "new Atoms object"
+                    if shared is None:
+                        shared = SymmetryAnalyzer(buf, symmetry_tol=c.get("tol", 1e-3))
+                    else:
+                        shared.set_system(buf)
+                    try:
+                        s2 = summary(SymmetryAnalyzer(buf.copy(), symmetry_tol=c.get("tol", 1e-3)))
+                    except Exception as e2:     # the structure itself cannot be analysed: not a statement about reuse
+                        reuse_rows.append({"id": c["id"], "same": True, "step": what, "how": how, "fresh_raised": type(e2).__name__})
+                        try:
+                            summary(shared)
+                        except Exception:
+                            pass
+                        continue
+                    s1 = summary(shared)
+                    reuse_rows.append({"id": c["id"], "same": bool(same_summary(s1, s2)), "step": what, "how": how,
+                                       "reused": {k: s1[k] for k in ("number", "material_id", "multiset")},
+                                       "fresh": {k: s2[k] for k in ("number", "material_id", "multiset")}})
+            except Exception as e:
+                reuse_rows.append({"id": c["id"], "step": what, "error": type(e).__name__ + ": " + str(e)[:200]})
 
 rows = []
 for c in req.get("cases", []):
